@@ -18,7 +18,7 @@ for sid in sorted(os.listdir(os.path.join(V, "seeded"))):
     rows.append((sid, m["property"], m.get("round", 1), note, res.get("status", "?"), ", ".join(sorted(set(keys)))))
 caught = sum(1 for r in rows if r[4] == "CAUGHT")
 out = ["## 11. Seeded changes written by independent sub-agents, and which rules catch them", "",
-       "Each change was written by a fresh sub-agent that saw only the text of one property and a scratch worktree of /repo (nothing from /verif), in six rounds "
+       "Each change was written by a fresh sub-agent that saw only the text of one property and a scratch worktree of /repo (nothing from /verif), in seven rounds "
        "(each later round was told which ideas the earlier rounds had used and asked for different ones). Every change kept here was confirmed by `tools/verify_seed.py` in the scratch "
        "worktree: the patch applies to /repo's HEAD of that time, the 30 baseline tests still pass, and the demonstration fails with the change and passes without it on at least one of "
        "the interpreters 3.7-3.10 (3.12 for the JSON-only ones). `tools/seeded.py` applies each patch to a scratch copy (never to /repo) and runs the quick check of the "
@@ -27,7 +27,7 @@ out = ["## 11. Seeded changes written by independent sub-agents, and which rules
        f"Result at the last commit that touched the rules: **{caught} of {len(rows)}** changes make the check of *their own* property exit 1 with a finding naming the changed construct; "
        "the others end in exit 2 ('not decided'), none passes silently. "
        "History: round 1 - after the first evaluation 16 of 36 were caught by their own check (30 of 45 by some check); round 2 started at 11 of 30; round 3 at 14 of 48 "
-       "(22 by some check, 8 more at exit 2); round 4 at 12 of 48 (30 by some check, 7 more at exit 2); round 5 at 21 of 48; round 6 at 15 of 48. The misses drove most of the rule additions listed in section 0a. "
+       "(22 by some check, 8 more at exit 2); round 4 at 12 of 48 (30 by some check, 7 more at exit 2); round 5 at 21 of 48; round 6 at 15 of 48; round 7 at 27 of 48. The misses drove most of the rule additions listed in section 0a. "
        "Not decided, on purpose or for lack of a sound rule:", "",
        "* C10-7, C10-8 - arithmetic of the table stages over integer sequences (`collapse_items` rewritten as a forward pass whose 'previous entry' is the already merged one; the lnotab "
        "walk turned into a `for` over `range(0, max(max_offset, sum(...)), 2)`): exit 2 - whether the bound / the merged entry is right needs symbolic execution of loops over tables.",
@@ -42,6 +42,8 @@ out = ["## 11. Seeded changes written by independent sub-agents, and which rules
        "* C02-17 - the parser's unit counter replaced by the size function of the operand: exit 2 (the counter of code units is not recognised; R02.8 is not reached).",
        "* C08-17 - a hash cached in `__dict__` (pickle carries the seed-dependent number): exit 2 (hash idiom not recognised).  C14-17 - duplicate detection keyed by id() for code objects: "
        "exit 2 (the table methods are not evaluable on the witness sequences).",
+       "* C04-21, C06-19, C14-21 - the decoder's ArgsInput construction moved into a classmethod, the relative-jump base changed on both sides at once, `__iter__` split into a per-block helper: "
+       "exit 2 (the recognisers of R04.1 / R02.3 / R14.4 do not find their anchor).",
        "* C14-7 - `__iter__` re-derives the constants table with its own rank model: exit 2 ('the nested code objects reach the yield through `constants_table(...)`, not by walking "
        "self's blocks directly').", "",
        "| id | round | what the change does (from the sub-agent's note) | own check | rules that fire |", "|---|---|---|---|---|"]
